@@ -687,6 +687,21 @@ func journalDiscipline(r *Run, entries []*types.Named) {
 		}
 		r.Check(len(unused) == 0, "R4", "(x/evm/statedb."+n+").Revert#uses-recorded-fields", P.Pos(fnPos(fn)), "Revert reads every recorded field",
 			fmt.Sprintf("Revert ignores the recorded field(s) %v: the previous value is not restored", unused))
+		// a Revert restores what was recorded: it never writes a constant into revertible state (an entry can be
+		// journaled when the state already had the value it sets — a second SELFDESTRUCT, a re-added access-list
+		// entry — and must then restore that value, not a fixed "initial" one)
+		constWrite := ""
+		eachInstr(fn, func(in ssa.Instruction) {
+			if st, ok := in.(*ssa.Store); ok {
+				if _, isRev := revertibleWrite(in); isRev {
+					if _, isConst := st.Val.(*ssa.Const); isConst {
+						constWrite = P.Pos(instrPos(in))
+					}
+				}
+			}
+		})
+		r.Check(constWrite == "", "R4", "(x/evm/statedb."+n+").Revert#restores-recorded-value", P.Pos(fnPos(fn)), "no constant is written into revertible state",
+			"Revert writes a constant into revertible state at "+constWrite+" instead of the value recorded when the entry was journaled: if the state already had the new value before the journaled operation, reverting the later frame also undoes the earlier, successful one")
 	}
 	r.Floor("R4", "journal entries with a Revert body", nE, 11)
 }
